@@ -190,6 +190,9 @@ def register_units(UNITS, gen):
                     return "(EEq %s %s)" % (self.expr(l), self.expr(r))
                 if isinstance(op, ast.NotEq):
                     return "(ENot (EEq %s %s))" % (self.expr(l), self.expr(r))
+                if isinstance(op, (ast.In, ast.NotIn)) and isinstance(r, (ast.Tuple, ast.List)):
+                    t = "(EIn %s %s)" % (self.expr(l), lst(self.expr(x) for x in r.elts))
+                    return t if isinstance(op, ast.In) else "(ENot %s)" % t
             raise U("expression " + type(e).__name__ + ": " + ast.dump(e)[:100])
 
         # ---- statements ----
